@@ -402,11 +402,14 @@ def run(ctx):
                     bid = A.ref_id(A.kids(bf_)[0]) if bf_.get("kind") == "UnaryOperator" and bf_.get("opcode") == "&" else A.ref_id(bf_)
                     if iid is None or bid is None:
                         continue
-                    pairs11.setdefault(bid, set()).add(iid)
+                    # two walks one after the other may reuse a buffer; what counts is one buffer for two iterators within
+                    # one round of one loop (or outside every loop)
+                    loop_ = next((a_.get("id") for a_ in uu11.ancestors(c_) if a_.get("kind") in ("ForStmt", "WhileStmt", "DoStmt", "CXXForRangeStmt")), None)
+                    pairs11.setdefault((bid, loop_), set()).add(iid)
                 if len({i_ for s_ in pairs11.values() for i_ in s_}) < 2:
                     continue
                 n11 += 1
-                shared = {b_: sorted(i_) for b_, i_ in pairs11.items() if len(i_) > 1}
+                shared = {b_[0]: sorted(i_) for b_, i_ in pairs11.items() if len(i_) > 1}
                 ctx.ob("R16.11", q11, not shared, site=A.where(f11), detail={"iterators": len({i_ for s_ in pairs11.values() for i_ in s_}), "buffers": len(pairs11),
                                                                               "buffers_shared_by_two_iterators": [uu11.by_id[b_].get("name") for b_ in shared]},
                        key="R16.11:%s" % q11,
